@@ -1415,6 +1415,7 @@ generate_pes_packet		(vbi_dvb_mux *		mx,
 	unsigned int p_left;
 	unsigned int last_line;
 	unsigned int last_du_size;
+	unsigned int du_size;
 	unsigned int packet_length;
 	unsigned int size;
 	vbi_bool fixed_length;
@@ -1453,6 +1454,7 @@ generate_pes_packet		(vbi_dvb_mux *		mx,
 	s_begin = s;
 
 	last_line = 0;
+	last_du_size = 0;
 
 	for (;;) {
 		if (s < s_end) {
@@ -1481,7 +1483,7 @@ generate_pes_packet		(vbi_dvb_mux *		mx,
 
 		err = insert_sliced_data_units (&p,
 						p_end - p,
-						&last_du_size,
+						&du_size,
 						&s_begin,
 						s - s_begin,
 						service_mask,
@@ -1490,6 +1492,11 @@ generate_pes_packet		(vbi_dvb_mux *		mx,
 			s = s_begin;
 			goto failed;
 		}
+
+		/* Zero if no data unit was stored, then the last
+		   data unit is still the one stored before. */
+		if (du_size > 0)
+			last_du_size = du_size;
 
 		if (s_begin < s) {
 			/* Not enough space to encode all sliced data. */
@@ -1525,7 +1532,7 @@ generate_pes_packet		(vbi_dvb_mux *		mx,
 
 		err = insert_raw_data_units (&p,
 					     p_end - p,
-					     &last_du_size,
+					     &du_size,
 					     &samples,
 					     mx->raw_samples_left,
 					     fixed_length,
@@ -1538,6 +1545,9 @@ generate_pes_packet		(vbi_dvb_mux *		mx,
 			mx->raw_samples_left = 0;
 			goto failed;
 		}
+
+		if (du_size > 0)
+			last_du_size = du_size;
 
 		mx->raw_samples_left = samples_end - samples;
 		if (mx->raw_samples_left > 0) {
